@@ -88,7 +88,14 @@ func camel(s string) string {
 	return strings.Join(parts, "")
 }
 
+// LocalDepPkg is the protobuf package of the file-local dependency of f (feature "local-import"): an imported .proto file that is
+// not itself being generated and whose Go package NAME (apiv1) differs from the last element of its import path (.../api/v1).
+func (f *File) LocalDepPkg() string { return f.Pkg + ".api.v1" }
+
 func (f *File) qualify(t string) string {
+	if strings.HasPrefix(t, "@dep.") {
+		return "." + f.LocalDepPkg() + "." + strings.TrimPrefix(t, "@dep.")
+	}
 	if strings.HasPrefix(t, ".") {
 		return t
 	}
